@@ -44,7 +44,7 @@ type c05Item struct {
 	Format string `json:"format"`
 }
 
-func c05Streams() [][]any {
+func c05Streams(tier string) [][]any {
 	var out [][]any
 	for _, s := range c05Lookalikes {
 		out = append(out, []any{s}, []any{map[string]any{s: 1}}, []any{map[string]any{"k": s}}, []any{[]any{s}}, []any{map[string]any{s: s}},
@@ -57,7 +57,14 @@ func c05Streams() [][]any {
 		[]any{[]any{[]any{}, map[string]any{}}}, []any{map[string]any{"a": map[string]any{"b": map[string]any{"c": []any{1, map[string]any{"d": []any{}}}}}}})
 	// reduced alphabet, all trees up to 3 nodes
 	a := gen.Alphabet{Scalars: []any{"1", "true", "", "a\nb", "---", "#c", 1, 1.5, true}, Keys: []string{"k", "1", "", "a.b", "---", "yes"}, MaxList: 2, MaxMap: 2}
-	for _, t := range gen.Trees(a, 3) {
+	nTree := 3
+	if tier == "thorough" {
+		// a wider look-alike alphabet (white space and line breaks at the edges, more keys) one node deeper
+		nTree = 4
+		a = gen.Alphabet{Scalars: []any{"1", "true", "", "a\nb", "---", "#c", 1, 1.5, true, "\nx", "x\n", " y", "<<", "null", -0.5, 9007199254740993},
+			Keys: []string{"k", "1", "", "a.b", "---", "yes", "<<", " sp", "null"}, MaxList: 3, MaxMap: 2}
+	}
+	for _, t := range gen.Trees(a, nTree) {
 		out = append(out, []any{t})
 	}
 	// multi-document streams: every sequence of 1-4 documents over a diverse pool
@@ -97,7 +104,7 @@ func c05TOMLable(docs []any) bool {
 func c05NormDecoded(v any) any { return c14Norm(v) }
 
 func buildC05(tier string) *core.Plan {
-	streams := c05Streams()
+	streams := c05Streams(tier)
 	var items []c05Item
 	for _, s := range streams {
 		for _, f := range c05Formats {
@@ -384,7 +391,7 @@ func buildC05(tier string) *core.Plan {
 		}}
 	return &core.Plan{
 		Spaces: []core.Space{roundTrip, cliSpace, multiSpace, c05FileFormatSpace()},
-		Rule: "every single-document stream built from 78 look-alike strings (incl. multi-line strings with significant leading/trailing/inner white space) (as root, key, value, list entry, nested), 12 boundary numbers, bools and empty containers; all trees up to 3 nodes over a reduced look-alike alphabet; every stream of 2-4 documents over an 8-document pool; " +
+		Rule: "every single-document stream built from 78 look-alike strings (incl. multi-line strings with significant leading/trailing/inner white space) (as root, key, value, list entry, nested), 12 boundary numbers, bools and empty containers; all trees up to 3 nodes over a reduced look-alike alphabet (thorough: up to 4 nodes over 16 scalars and 9 keys); every stream of 2-4 documents over an 8-document pool; " +
 			"each in all 6 output formats (TOML: map-rooted only); CLI matrix -f x -o extension x (virtual) input extension x real format",
 		Assumptions: []string{"decode(encode(docs)) is compared by value (2.0 may read back as 2) with bkl's decoder, with a fresh Parser loading the bytes as a file, and with Python json / PyYAML under a YAML 1.2 core-schema resolver / tomllib",
 			"strings contain no $ (they would be directives when re-read as a file)"},
